@@ -29,7 +29,9 @@ pub fn max_hash_for_scaled(scaled: u64) -> u64 {
 pub fn scaled_for_max_hash(max_hash: u64) -> u64 {
     match max_hash {
         0 => 0, // scaled == 0 indicates this is a num minhash
-        _ => (u64::MAX as f64 / max_hash as f64) as u64,
+        // round to nearest: truncation reported `scaled - 1` for scaled values such
+        // as 93, whose max_hash is itself a truncated quotient
+        _ => (u64::MAX as f64 / max_hash as f64).round() as u64,
     }
 }
 
